@@ -400,6 +400,33 @@ def r7_reserved_data(repo):
     return obs
 
 
+def r8_type_variables_in_scope(repo):
+    obs = []
+    f = _m(repo, "_gen_matching_func")
+    st = [n for n in iter_own_nodes(f.node) if isinstance(n, ast.Assign) and src(n.targets[0]) == "self.namespace" and
+          isinstance(n.value, ast.IfExp)]
+    ok, msg = len(st) == 1, "namespace choice for the generated function not found"
+    if ok:
+        v = st[0].value
+        disj = [" ".join(src(x).split()) for x in (v.test.values if isinstance(v.test, ast.BoolOp) and
+                                                      isinstance(v.test.op, ast.Or) else [v.test])]
+        ok = src(v.body) == "self.namespace" and "GLOBAL_NAMESPACE" in src(v.orelse) and \
+            "etype.has_type_variables()" in disj
+        msg = ("a function generated to return `etype` may be put into the global namespace only if etype has no type "
+               "variables (also nested ones, e.g. Box<T>): the current namespace must be kept under "
+               "`... or etype.has_type_variables()`; condition: %s" % disj)
+    obs.append(Ob("C05-R8", "_gen_matching_func:callee-stays-where-its-type-variables-are-declared", _w(f), ok, msg))
+    f = _m(repo, "_gen_matching_class")
+    c = [x for x in calls_in(f.node) if call_name(x) == "_create_type_params_from_etype"]
+    ok = len(c) == 1 and ("etype.has_type_variables()", True) in _g(c[0]) and src(c[0].args[0]) == "etype"
+    sub = [x for x in calls_in(f.node) if call_name(x) == "substitute_type" and src(x.args[0]) == "etype"]
+    ok = ok and len(sub) == 1 and ("etype.has_type_variables()", True) in _g(sub[0])
+    obs.append(Ob("C05-R8", "_gen_matching_class:fresh-type-parameters-for-types-with-type-variables", _w(f), ok,
+                  "a class generated for a type with type variables must get its own type parameters "
+                  "(_create_type_params_from_etype) and use the substituted type"))
+    return obs
+
+
 def rules():
     return [
         RuleSpec("C05-R1", "only non-final variables / fields are assignment targets", 6, r1_non_final_targets),
@@ -409,6 +436,7 @@ def rules():
         RuleSpec("C05-R5", "provenance of declaration names", 11, r5_identifier_provenance),
         RuleSpec("C05-R6", "identifier pool discipline", 5, r6_pool_discipline),
         RuleSpec("C05-R7", "reserved words of the four target languages vs. the resource files", 5, r7_reserved_data),
+        RuleSpec("C05-R8", "generated callees stay in the scope of their type variables", 2, r8_type_variables_in_scope),
     ]
 
 
@@ -494,6 +522,17 @@ def _v_del_def(text):
     return "\n".join(l for l in lines if l != "given") + "\n"
 
 
+def _v_global_callee(tree):
+    f = V.find_def(tree, "Generator._gen_matching_func")
+    x = V.one([n for n in ast.walk(f) if isinstance(n, ast.IfExp) and "GLOBAL_NAMESPACE" in ast.unparse(n.orelse)])
+    x.test = V.parse_expr("ut.random.bool() or etype.is_type_var()")
+
+
+def _v_reset_from_class_attr(tree):
+    f = V.find_def(tree, "RandomUtils.reset_word_pool")
+    f.body[0].value = V.parse_expr("set(RandomUtils.INITIAL_WORDS)")
+
+
 def _t_rename(tree):
     f = V.find_def(tree, "Generator._get_assignable_vars")
     V.rename_local(f, "variables", "targets")
@@ -514,6 +553,8 @@ def variants():
         V.Variant("reserved words removed from WORDS only", "src/utils.py", _v_reserved_only_words, {"C05-R6"}),
         V.Variant("word() keeps the word in the pool", "src/utils.py", _v_word_keeps, {"C05-R6"}),
         V.Variant("`given` deleted from scala_keywords", "src/resources/scala_keywords", _v_del_def, {"C05-R7"}),
+        V.Variant("callee for Box<T> may be generated in the global namespace", g, _v_global_callee, {"C05-R8"}),
+        V.Variant("reset_word_pool restores the unfiltered class-level pool", "src/utils.py", _v_reset_from_class_attr, {"C05-R6"}),
         V.Variant("twin: rename the candidate list", g, _t_rename, None, twin=True),
         V.Variant("twin: whole tree reformatted by ast.unparse", None, None, None, twin=True),
     ]
